@@ -22,7 +22,7 @@ impl SystemTime {
     pub const UNIX_EPOCH: SystemTime = UNIX_EPOCH;
 
     pub fn now() -> SystemTime {
-        match rt::clock_read() {
+        match rt::wall_read() {
             Some(ns) => SystemTime(std::time::UNIX_EPOCH + Duration::from_nanos(ns)),
             None => SystemTime(std::time::SystemTime::now()),
         }
